@@ -472,6 +472,10 @@ fn real_server_hosts(r: &mut Report, exe: &str, work: &str, seed: u64, variant: 
             let p = format!("{}/h{}/{}", dir, i, f);
             std::fs::create_dir_all(std::path::Path::new(&p).parent().unwrap()).unwrap();
             std::fs::write(&p, format!("HV16-HOST{}-{}-{}|{}", i, seed, variant, f)).unwrap();
+            // a second directory of the same host, served under /docs/*, with files of the same relative paths (seeded C16-K)
+            let p = format!("{}/h{}d/{}", dir, i, f);
+            std::fs::create_dir_all(std::path::Path::new(&p).parent().unwrap()).unwrap();
+            std::fs::write(&p, format!("HV16-DOCS{}-{}-{}|{}", i, seed, variant, f)).unwrap();
         }
     }
     std::fs::write(format!("{}/only.html", dir), "HV16-ONLY").unwrap();
@@ -481,9 +485,9 @@ fn real_server_hosts(r: &mut Report, exe: &str, work: &str, seed: u64, variant: 
     let mut conf = format!("server {{\n  address \"127.0.0.1\"\n  port {}\n  threads 4\n  cache {{\n    size 1M\n    time 60\n  }}\n  log {{\n    level \"error\"\n    console false\n  }}\n", port);
     let order: Vec<usize> = if variant % 2 == 0 { vec![0, 1, 2] } else { vec![2, 0, 1] };
     for i in order {
-        conf.push_str(&format!("  host \"{}\" {{\n{}    route /* {{\n      directory \"{}/h{}\"\n    }}\n  }}\n", hosts[i], pre[i].replace("{D}", &dir), dir, i));
+        conf.push_str(&format!("  host \"{}\" {{\n{}    route /docs/* {{\n      directory \"{}/h{}d\"\n    }}\n    route /* {{\n      directory \"{}/h{}\"\n    }}\n  }}\n", hosts[i], pre[i].replace("{D}", &dir), dir, i, dir, i));
     }
-    conf.push_str(&format!("  route /* {{\n    directory \"{}/h3\"\n  }}\n}}\n", dir));
+    conf.push_str(&format!("  route /docs/* {{\n    directory \"{}/h3d\"\n  }}\n  route /* {{\n    directory \"{}/h3\"\n  }}\n}}\n", dir, dir));
     let conf_path = format!("{}/humphrey.conf", dir);
     std::fs::write(&conf_path, &conf).unwrap();
     let mut child = match Command::new(exe).arg(&conf_path).current_dir(&dir).stdin(Stdio::null()).stdout(Stdio::null()).stderr(Stdio::null()).spawn() {
@@ -516,7 +520,7 @@ fn real_server_hosts(r: &mut Report, exe: &str, work: &str, seed: u64, variant: 
     let replay = vec!["c16".to_string(), "--seed".into(), seed.to_string()];
     let mine = format!("-{}-{}|", seed, variant);
     for round in 0..6 {
-        for uri in ["/x.txt", "/", "/sub/y.txt", "/index.html"] {
+        for uri in ["/x.txt", "/docs/x.txt", "/", "/docs/", "/sub/y.txt", "/docs/sub/y.txt", "/index.html", "/docs/index.html", "/x.txt"] {
             // a random order of the four hosts (the last one is an unknown name: default host)
             let mut idx: Vec<usize> = vec![0, 1, 2, 3];
             for i in (1..idx.len()).rev() {
@@ -536,11 +540,17 @@ fn real_server_hosts(r: &mut Report, exe: &str, work: &str, seed: u64, variant: 
                 let _ = s.write_all(format!("GET {} HTTP/1.1\r\nHost: {}\r\nConnection: close\r\n\r\n", uri, host_header).as_bytes());
                 let (buf, _) = hvcommon::net::read_to_eof(&mut s, Duration::from_secs(10));
                 let text = String::from_utf8_lossy(&buf).to_string();
-                let want_tag = format!("HV16-HOST{}{}", hi, mine);
+                let docs = uri.starts_with("/docs/");
+                let want_tag = format!("HV16-{}{}{}", if docs { "DOCS" } else { "HOST" }, hi, mine);
                 if text.contains(&want_tag) {
                     r.count("multi_host_answers_own_file", 1);
-                } else if let Some(other) = (0..4).find(|o| text.contains(&format!("HV16-HOST{}{}", o, mine))) {
+                    if docs {
+                        r.count("second_directory_route_answers_own_file", 1);
+                    }
+                } else if let Some(other) = (0..4).find(|o| text.contains(&format!("HV16-{}{}{}", if docs { "DOCS" } else { "HOST" }, o, mine))) {
                     r.violation("C16/server:another-hosts-entry", format!("GET {} with Host {} (round {}) was answered with the file of host #{} ({:?}) instead of its own: the cache returned another (host, path) entry's data", uri, host_header, round, other, if hosts[other].is_empty() { "default" } else { hosts[other] }), J::obj(vec![("config", J::s(&conf)), ("uri", J::s(uri)), ("host", J::s(host_header)), ("response_head", J::s(text.chars().take(200).collect::<String>()))]), replay.clone());
+                } else if let Some(other) = (0..4).find(|o| text.contains(&format!("HV16-{}{}{}", if docs { "HOST" } else { "DOCS" }, o, mine))) {
+                    r.violation("C16/server:another-routes-entry", format!("GET {} with Host {} (round {}) was answered with the file of the same relative path under the {} directory route of host #{}: the cache returned the entry of another path", uri, host_header, round, if docs { "/*" } else { "/docs/*" }, other), J::obj(vec![("config", J::s(&conf)), ("uri", J::s(uri)), ("host", J::s(host_header)), ("response_head", J::s(text.chars().take(200).collect::<String>()))]), replay.clone());
                 } else if !text.starts_with("HTTP/1.1 200") {
                     r.violation("C16/handler:not-served", format!("GET {} with Host {} answered {:?}", uri, host_header, text.chars().take(40).collect::<String>()), J::s(&conf), replay.clone());
                 } else {
@@ -719,6 +729,6 @@ pub fn main(args: &Args) {
         r
     });
     let total = Report::merge_all(reports);
-    let rule = format!("(a) every operation sequence of length {} over 24 operations (set x 3 keys x 2 hosts x 3 sizes {{0, limit/2, limit}}, get x 3 keys x 2 hosts) for size limits {{0,1,3,64}} (and 64 KiB on every 61st sequence) x time limits {{0,1,60}}, probing every key ever stored after every operation (so every shorter sequence is covered as a prefix); (b) random sequences of 100..2000 operations over 32 keys x 2 hosts; (c) 1..8 threads through RwLock<Cache> as the handlers use it, unique values, per-key interval check; (d) file_handler/directory_handler with a cache-enabled AppState over files rewritten between requests, with real sleeps past the time limit, incl. stores over expired entries; (f) the real server binary with cache on and four virtual hosts whose directory routes sit at different route positions, the same URIs requested on every host in random order. non-trivial = at least two stores; distinct = distinct sequences / histories", maxlen);
+    let rule = format!("(a) every operation sequence of length {} over 24 operations (set x 3 keys x 2 hosts x 3 sizes {{0, limit/2, limit}}, get x 3 keys x 2 hosts) for size limits {{0,1,3,64}} (and 64 KiB on every 61st sequence) x time limits {{0,1,60}}, probing every key ever stored after every operation (so every shorter sequence is covered as a prefix); (b) random sequences of 100..2000 operations over 32 keys x 2 hosts; (c) 1..8 threads through RwLock<Cache> as the handlers use it, unique values, per-key interval check; (d) file_handler/directory_handler with a cache-enabled AppState over files rewritten between requests, with real sleeps past the time limit, incl. stores over expired entries; (f) the real server binary with cache on and four virtual hosts whose directory routes sit at different route positions, each host with a second directory route /docs/* holding files of the same relative paths, the same URIs requested on every host in random order. non-trivial = at least two stores; distinct = distinct sequences / histories", maxlen);
     total.write(out, &rule, Some(true), &["a hit's real age is bounded by time limit + 1 s (the cache clock has one-second resolution)", "with time limit 0 an item just stored may or may not be retrievable (the two clauses coincide only at age 0)", "exhaustive refers to part (a)", "stores larger than the size limit are not generated (the handlers never do that and the property quantifies sizes from 0 to the limit)"]);
 }
